@@ -877,6 +877,13 @@ func indexDischarged(fn *ssa.Function, blk *ssa.BasicBlock, base, index ssa.Valu
 			return true
 		}
 	}
+	// 2b. a piece source[from:to] cut by a helper of the scanner out of positions it is handed:
+	// every caller hands positions with from ≤ to ≤ len(source)
+	if isString(base.Type()) && kind == "slice" && idxEngine != nil && idxWorld != nil {
+		if sp, ok := base.(*ssa.Parameter); ok && sliceOfParamsSafeAtCallers(idxWorld, fn, sp, blk) {
+			return true
+		}
+	}
 	// 3. scanning positions of a string: the position is bounded by induction over the places
 	// it is advanced at (see posBound)
 	if isString(base.Type()) && idxEngine != nil {
@@ -1393,7 +1400,7 @@ func (p *posBound) ltLen(q ssa.Value, blk *ssa.BasicBlock) bool {
 					op = token.ILLEGAL
 				}
 			}
-			if (op == token.LSS && x == q && p.isLen(y)) || (op == token.GTR && y == q && p.isLen(x)) {
+			if (op == token.LSS && sameFieldVal(x, q) && p.isLen(y)) || (op == token.GTR && sameFieldVal(y, q) && p.isLen(x)) {
 				return true
 			}
 		}
@@ -1411,6 +1418,14 @@ func (p *posBound) ltLen(q ssa.Value, blk *ssa.BasicBlock) bool {
 }
 
 func (p *posBound) leLen(v ssa.Value, blk *ssa.BasicBlock, depth int) bool {
+	ok := p.leLen0(v, blk, depth)
+	if !ok && os.Getenv("VERIF_DEBUG") == "slicecall" && v != nil {
+		fmt.Printf("LELEN fail depth=%d %s = %s\n", depth, v.Name(), v)
+	}
+	return ok
+}
+
+func (p *posBound) leLen0(v ssa.Value, blk *ssa.BasicBlock, depth int) bool {
 	if depth > 8 || v == nil {
 		return false
 	}
@@ -1427,6 +1442,13 @@ func (p *posBound) leLen(v ssa.Value, blk *ssa.BasicBlock, depth int) bool {
 	case *ssa.BinOp:
 		if x.Op == token.ADD && isConstInt(x.Y, 1) && p.ltLen(x.X, x.Block()) {
 			return true
+		}
+		// q + len(m) where m was matched in (or is a prefix of) base[q:]: a piece of the rest
+		// is not longer than the rest
+		if x.Op == token.ADD {
+			if m := lenCallArg(x.Y); m != nil && p.pieceOfRest(m, x.X, x.Block()) && p.leLen(x.X, x.Block(), depth+1) {
+				return true
+			}
 		}
 	case *ssa.Phi:
 		p.assumed[x] = true
@@ -2870,4 +2892,316 @@ func reviewedIndexSites(fp, fn string, und int) (string, bool) {
 		}
 	}
 	return "", false
+}
+
+// sameFieldVal: a and b are the same value: identical, or the same field taken from the same
+// struct value (go/ssa does not share such extractions).
+func sameFieldVal(a, b ssa.Value) bool {
+	if a == b {
+		return true
+	}
+	fa, ok1 := a.(*ssa.Field)
+	fb, ok2 := b.(*ssa.Field)
+	if ok1 && ok2 && fa.X == fb.X && fa.Field == fb.Field {
+		return true
+	}
+	// two loads of the same field of a local struct with no store to it in between
+	la, ok1 := a.(*ssa.UnOp)
+	lb, ok2 := b.(*ssa.UnOp)
+	if !ok1 || !ok2 || la.Op != token.MUL || lb.Op != token.MUL {
+		return false
+	}
+	xa, ok1 := la.X.(*ssa.FieldAddr)
+	xb, ok2 := lb.X.(*ssa.FieldAddr)
+	if !ok1 || !ok2 || xa.Field != xb.Field || xa.X != xb.X {
+		return false
+	}
+	al, ok := xa.X.(*ssa.Alloc)
+	if !ok {
+		return false
+	}
+	first, second := la, lb
+	if !first.Block().Dominates(second.Block()) {
+		first, second = lb, la
+		if !first.Block().Dominates(second.Block()) {
+			return false
+		}
+	}
+	storesIn := func(blk *ssa.BasicBlock, from, to int) bool {
+		for i := from; i < to && i < len(blk.Instrs); i++ {
+			st, ok := blk.Instrs[i].(*ssa.Store)
+			if !ok {
+				if c, ok := blk.Instrs[i].(*ssa.Call); ok {
+					for _, arg := range c.Call.Args {
+						if arg == ssa.Value(al) {
+							return true // the address escapes into a call
+						}
+					}
+				}
+				continue
+			}
+			if st.Addr == ssa.Value(al) {
+				return true
+			}
+			if f2, ok := st.Addr.(*ssa.FieldAddr); ok && f2.X == ssa.Value(al) && f2.Field == xa.Field {
+				return true
+			}
+		}
+		return false
+	}
+	A, B := first.Block(), second.Block()
+	if A == B {
+		i, j := instrIndex(first), instrIndex(second)
+		if i > j {
+			i, j = j, i
+		}
+		return !storesIn(A, i, j)
+	}
+	if storesIn(A, instrIndex(first), len(A.Instrs)) || storesIn(B, 0, instrIndex(second)) {
+		return false
+	}
+	seen := map[*ssa.BasicBlock]bool{A: true}
+	clean := true
+	var walk func(x *ssa.BasicBlock)
+	walk = func(x *ssa.BasicBlock) {
+		if seen[x] || !clean {
+			return
+		}
+		seen[x] = true
+		if x == B {
+			return
+		}
+		if !reaches(x, B) && x != B {
+			return // leads elsewhere
+		}
+		if storesIn(x, 0, len(x.Instrs)) {
+			clean = false
+			return
+		}
+		for _, s := range x.Succs {
+			walk(s)
+		}
+	}
+	for _, s := range A.Succs {
+		walk(s)
+	}
+	return clean
+}
+
+// sliceOfParamsSafeAtCallers: fn slices its string parameter sp as sp[low:high] where high is a
+// parameter and low a parameter or a field of a struct parameter; at every static call the
+// argument for high is a position ≤ len(source) that was advanced from the value low stands
+// for (so low ≤ high).
+func sliceOfParamsSafeAtCallers(w *World, fn *ssa.Function, sp *ssa.Parameter, blk *ssa.BasicBlock) bool {
+	var sl *ssa.Slice
+	for _, b := range fn.Blocks {
+		for _, ins := range b.Instrs {
+			if x, ok := ins.(*ssa.Slice); ok && x.X == ssa.Value(sp) && x.Low != nil && x.High != nil {
+				if sl != nil {
+					return false
+				}
+				sl = x
+			}
+		}
+	}
+	if sl == nil {
+		return false
+	}
+	hp, ok := sl.High.(*ssa.Parameter)
+	if !ok {
+		return false
+	}
+	// low: a parameter, or a field of a struct parameter (possibly through its spilled copy)
+	var lp *ssa.Parameter
+	lowField := -1
+	switch x := sl.Low.(type) {
+	case *ssa.Parameter:
+		lp = x
+	case *ssa.Field:
+		if p, ok := x.X.(*ssa.Parameter); ok {
+			lp, lowField = p, x.Field
+		}
+	case *ssa.UnOp:
+		if fa, ok := x.X.(*ssa.FieldAddr); ok {
+			if al, ok := fa.X.(*ssa.Alloc); ok {
+				for _, ref := range *al.Referrers() {
+					if st, ok := ref.(*ssa.Store); ok && st.Addr == ssa.Value(al) {
+						if p, ok := st.Val.(*ssa.Parameter); ok {
+							lp, lowField = p, fa.Field
+						}
+					}
+				}
+			}
+		}
+	}
+	if lp == nil {
+		return false
+	}
+	idx := func(p *ssa.Parameter) int {
+		for i, q := range fn.Params {
+			if q == p {
+				return i
+			}
+		}
+		return -1
+	}
+	si, hi, li := idx(sp), idx(hp), idx(lp)
+	n := 0
+	for _, role := range libRoles {
+		for _, g := range w.Funcs(role) {
+			for _, b := range g.Blocks {
+				for _, ins := range b.Instrs {
+					for _, op := range ins.Operands(nil) {
+						if op != nil && *op == ssa.Value(fn) {
+							if c, ok := ins.(*ssa.Call); !ok || c.Call.StaticCallee() != fn {
+								return false // used as a value
+							}
+						}
+					}
+					c, ok := ins.(*ssa.Call)
+					if !ok || c.Call.StaticCallee() != fn {
+						continue
+					}
+					n++
+					if si >= len(c.Call.Args) || hi >= len(c.Call.Args) || li >= len(c.Call.Args) {
+						return false
+					}
+					src, high, lowArg := c.Call.Args[si], c.Call.Args[hi], c.Call.Args[li]
+					pb := &posBound{ce: idxEngine, fn: g, base: src, assumed: map[ssa.Value]bool{}}
+					if !pb.leLen(high, b, 0) {
+						if os.Getenv("VERIF_DEBUG") == "slicecall" {
+							if ph, ok := high.(*ssa.Phi); ok {
+								if p2, ok := ph.Edges[0].(*ssa.Phi); ok {
+									ph = p2
+								}
+								for i, e := range ph.Edges {
+									pb2 := &posBound{ce: idxEngine, fn: g, base: src, assumed: map[ssa.Value]bool{ph: true}}
+									fmt.Printf("SLICECALL edge %d %s: %v\n", i, e, pb2.leLen(e, ph.Block().Preds[i], 1))
+								}
+							}
+						}
+						return false
+					}
+					// what low stands for at this call
+					isLow := func(v ssa.Value) bool {
+						if lowField < 0 {
+							return v == lowArg
+						}
+						// a load of that field of the struct the argument was loaded from
+						ld, ok := lowArg.(*ssa.UnOp)
+						if !ok {
+							return false
+						}
+						al, ok := ld.X.(*ssa.Alloc)
+						if !ok {
+							return false
+						}
+						u, ok := v.(*ssa.UnOp)
+						if !ok {
+							return false
+						}
+						fa, ok := u.X.(*ssa.FieldAddr)
+						return ok && fa.X == ssa.Value(al) && fa.Field == lowField
+					}
+					seen := map[ssa.Value]bool{}
+					var grownFrom func(v ssa.Value, d int) bool
+					grownFrom = func(v ssa.Value, d int) bool {
+						if d > 12 {
+							return false
+						}
+						if isLow(v) {
+							return true
+						}
+						if seen[v] {
+							return true
+						}
+						seen[v] = true
+						switch x := v.(type) {
+						case *ssa.BinOp:
+							if x.Op != token.ADD {
+								return false
+							}
+							if k, ok := x.Y.(*ssa.Const); ok && k.Value != nil && constant.Sign(k.Value) >= 0 {
+								return grownFrom(x.X, d+1)
+							}
+							if lenCallArg(x.Y) != nil {
+								return grownFrom(x.X, d+1)
+							}
+							return false
+						case *ssa.Phi:
+							for _, e := range x.Edges {
+								if !grownFrom(e, d+1) {
+									return false
+								}
+							}
+							return true
+						case *ssa.Extract:
+							// a position returned by a scanning helper of the lexer: judged where it is produced
+							return false
+						}
+						return false
+					}
+					if !grownFrom(high, 0) {
+						return false
+					}
+				}
+			}
+		}
+	}
+	return n > 0
+}
+
+// pieceOfRest: m is a substring of base[q:] — the result (or a sub-match) of a regular
+// expression probe applied to that rest, or a text the rest is known to start with.
+func (p *posBound) pieceOfRest(m, q ssa.Value, blk *ssa.BasicBlock) bool {
+	restOf := func(s ssa.Value) bool {
+		sl, ok := s.(*ssa.Slice)
+		if !ok || sl.High != nil || sl.Low == nil {
+			return false
+		}
+		if !(sl.X == p.base || rootOf(sl.X, 0) == rootOf(p.base, 0)) {
+			return false
+		}
+		return sl.Low == q || sameFieldVal(sl.Low, q)
+	}
+	for i := 0; i < 4 && m != nil; i++ {
+		switch x := m.(type) {
+		case *ssa.Call:
+			n := calleeName(x)
+			if (n == "(*regexp.Regexp).FindString") && len(x.Call.Args) == 2 {
+				return restOf(x.Call.Args[1])
+			}
+			return false
+		case *ssa.UnOp:
+			ia, ok := x.X.(*ssa.IndexAddr)
+			if !ok {
+				return false
+			}
+			c, ok := ia.X.(*ssa.Call)
+			if !ok || calleeName(c) != "(*regexp.Regexp).FindStringSubmatch" || len(c.Call.Args) != 2 {
+				return false
+			}
+			return restOf(c.Call.Args[1])
+		case *ssa.Phi:
+			return false
+		default:
+			// a text the rest starts with (strings.HasPrefix(base[q:], m) on the way here)
+			for d := blk; d != nil; d = d.Idom() {
+				parent := d.Idom()
+				if parent == nil {
+					break
+				}
+				c, neg := condOf(parent)
+				call, ok := c.(*ssa.Call)
+				if !ok || neg || calleeName(call) != "strings.HasPrefix" || len(call.Call.Args) != 2 {
+					continue
+				}
+				if call.Call.Args[1] == m && restOf(call.Call.Args[0]) && len(parent.Succs[0].Preds) == 1 && (parent.Succs[0] == blk || parent.Succs[0].Dominates(blk)) {
+					return true
+				}
+			}
+			return false
+		}
+	}
+	return false
 }
